@@ -38,10 +38,9 @@ Lemma dform_grid ns (b : Z) :
 Proof. unfold dform. apply sumf_ext; intros t _. rewrite dft_grid_thm. reflexivity. Qed.
 
 (* where the coarse centred entry j sits in the fine centred vector *)
-Definition centre_off : nat := ((c * n) / 2 - c * (n / 2))%nat.
 Lemma centre_off_spec j : (j < n)%nat ->
-  (c * j + centre_off < c * n)%nat /\
-  centerdc_bin (c * n) (c * j + centre_off) = (Z.of_nat c * centerdc_bin n j)%Z.
+  (c * j + centre_off n c < c * n)%nat /\
+  centerdc_bin (c * n) (c * j + centre_off n c) = (Z.of_nat c * centerdc_bin n j)%Z.
 Proof.
   intros Hj. unfold centre_off, centerdc_bin.
   pose proof (half_grid n c (n / 2) (Nat.le_refl _)) as H1.
@@ -56,7 +55,7 @@ Theorem eigen_grid_thm :
   match eigen meth eps nsig thr crit amin (coarsen c tw') n x P S Vh, eigen meth eps nsig thr crit amin tw' (c * n) x P S Vh with
   | inr (pc, evc), inr (pf, evf) =>
       evc = evf /\ evc = S /\ length pc = n /\ length pf = (c * n)%nat /\
-      forall j, (j < n)%nat -> (c * j + centre_off < c * n)%nat /\ nthF pf (c * j + centre_off) = nthF pc j
+      forall j, (j < n)%nat -> (c * j + centre_off n c < c * n)%nat /\ nthF pf (c * j + centre_off n c) = nthF pc j
   | inl e1, inl e2 => e1 = e2
   | _, _ => False
   end.
